@@ -467,6 +467,8 @@ class RowEval:
                     self.condition(st.test, kind == "if-true", env, subst, depth)
                     continue
                 if kind == "return":
+                    if on_stmt is not None:
+                        on_stmt(st, env, subst)
                     v = self.ev(st.value, env, depth) if st.value is not None else None
                     out.append(_subst(v, subst))
                     continue
